@@ -6,10 +6,12 @@ let parse_recs s =
   if s = "_" then [] else
   List.mapi (fun i t ->
     match split_on ':' t with
-    | rid :: st :: en :: _ ->
+    | rid :: st :: en :: _ :: cigar :: _ ->
         { rname = n_of_int i;
           rid = (if rid = "*" then None else Some (n_of_dec rid));
-          rs = n_of_dec st; re = n_of_dec en }
+          rs = n_of_dec st; re = n_of_dec en;
+          (* the UNMAPPED flag: unplaced records and placed records without alignment *)
+          runm = (rid = "*" || cigar = "*") }
     | _ -> failwith "rec") (split_on ';' s)
 
 let rec take n l = if n <= 0 then [] else match l with [] -> [] | h :: t -> h :: take (n - 1) t
@@ -28,6 +30,33 @@ let parse_file layout recs =
         written (n_of_dec off) (n_of_dec hl) (n_of_dec len) (n_of_dec lm) (n_of_dec sl) mine
     | _ -> failwith "layout") (split_on ';' layout)
 
+(* mlayout: `;`-separated offset:header_len:body_len:lm/sl/n,lm/sl/n,... *)
+let parse_mfile layout recs =
+  if layout = "_" then [] else
+  let rest = ref recs in
+  List.map (fun t ->
+    match split_on ':' t with
+    | [off; hl; len; sls] ->
+        let slices = List.map (fun u ->
+          match split_on '/' u with
+          | [lm; sl; n] ->
+              let n = int_of_string n in
+              let mine = take n !rest in
+              rest := drop n !rest;
+              wslice (n_of_dec lm) (n_of_dec sl) mine
+          | _ -> failwith "slice") (if sls = "" then [] else split_on ',' sls) in
+        { m_off = n_of_dec off; m_hlen = n_of_dec hl; m_len = n_of_dec len; m_slices = slices }
+    | _ -> failwith "mlayout") (split_on ';' layout)
+
+let fmt_res = function
+  | Ok _ -> assert false
+  | Panic -> "Panic"
+  | ErrInvalidInput -> "Err:InvalidInput"
+  | ErrInvalidData -> "Err:InvalidData"
+  | ErrUnexpectedEof -> "Err:UnexpectedEof"
+
+let fmt_names l = if l = [] then "_" else String.concat "," (List.map (fun x -> dec_of_n x.rname) l)
+
 let fmt_entry e =
   Printf.sprintf "%s,%s,%s,%s,%s,%s"
     (match e.e_rid with None -> "*" | Some r -> dec_of_n r)
@@ -43,8 +72,7 @@ let handle kind a =
       let f = parse_file a.(5) (parse_recs a.(3)) in
       (match index (n_of_dec a.(4)) f with
        | Ok es -> Some ("I=" ^ (if es = [] then "_" else String.concat ";" (List.map fmt_entry es)))
-       | Panic -> Some "I=Panic"
-       | ErrInvalidInput -> Some "I=Err:InvalidInput")
+       | e -> Some ("I=" ^ fmt_res e))
   | "qry" ->
       let f = parse_file a.(5) (parse_recs a.(3)) in
       let es = index_core (n_of_dec a.(4)) f in
@@ -56,10 +84,78 @@ let handle kind a =
             (match query_region nrefs es f (n_of_dec r) (opt lo) (opt hi) with
              | Ok [] -> "_"
              | Ok l -> String.concat "," (List.map (fun x -> dec_of_n x.rname) l)
-             | Panic -> "Panic"
-             | ErrInvalidInput -> "Err:InvalidInput")
+             | e -> fmt_res e)
         | _ -> failwith "region") regions in
       Some ("Q=" ^ (if ans = [] then "_" else String.concat ";" ans))
+  | "midx" ->
+      let f = parse_mfile a.(6) (parse_recs a.(3)) in
+      (match index_m (n_of_dec a.(4)) f with
+       | Ok es -> Some ("I=" ^ (if es = [] then "_" else String.concat ";" (List.map fmt_entry es)))
+       | e -> Some ("I=" ^ fmt_res e))
+  | "mqry" ->
+      let f = parse_mfile a.(6) (parse_recs a.(3)) in
+      (match index_m (n_of_dec a.(4)) f with
+       | Ok es ->
+           let nrefs = n_of_int (List.length (split_on ',' a.(1))) in
+           let regions = if a.(7) = "_" then [] else split_on ';' a.(7) in
+           let ans = List.map (fun t ->
+             match split_on ':' t with
+             | [r; lo; hi] ->
+                 (match query_region_m nrefs es f (n_of_dec r) (opt lo) (opt hi) with
+                  | Ok l -> fmt_names l
+                  | e -> fmt_res e)
+             | _ -> failwith "region") regions in
+           Some ("Q=" ^ (if ans = [] then "_" else String.concat ";" ans))
+       | e -> Some ("Q=" ^ fmt_res e))
+  | "via" ->
+      let f = parse_mfile a.(6) (parse_recs a.(3)) in
+      (match index_m (n_of_dec a.(4)) f with
+       | Ok es ->
+           let nrefs = n_of_int (List.length (split_on ',' a.(1))) in
+           let regions = if a.(7) = "_" then [] else split_on ';' a.(7) in
+           let ans = List.map (fun t ->
+             match split_on ':' t with
+             | [r; lo; hi] ->
+                 (match query_via_file nrefs es f (n_of_dec r) (opt lo) (opt hi) with
+                  | Some (Ok l) -> fmt_names l
+                  | Some e -> fmt_res e
+                  | None -> "ReadErr")
+             | _ -> failwith "region") regions in
+           let u = match query_unmapped_via_file es f with
+             | Some (Ok l) -> fmt_names l
+             | Some e -> fmt_res e
+             | None -> "ReadErr" in
+           Some ("T=" ^ hex_of_bytes (crai_text es)
+                 ^ ";Q=" ^ (if ans = [] then "_" else String.concat ";" ans) ^ ";U=" ^ u)
+       | e -> Some ("T=" ^ fmt_res e))
+  | "hdr" ->
+      (* the records of every slice, in file order (only those of multi-reference slices are used) *)
+      let recs = parse_recs a.(3) in
+      let rest = ref recs in
+      let per_slice =
+        if a.(6) = "_" then [] else
+        List.concat_map (fun t ->
+          match split_on ':' t with
+          | [_; _; _; sls] ->
+              List.map (fun u ->
+                match split_on '/' u with
+                | [_; _; n] -> let n = int_of_string n in
+                    let mine = take n !rest in rest := drop n !rest; mine
+                | _ -> failwith "slice") (if sls = "" then [] else split_on ',' sls)
+          | _ -> failwith "mlayout") (split_on ';' a.(6)) in
+      (match index_of_bytes32 (bytes_of_hex a.(8)) per_slice with
+       | BOk es -> Some ("H=" ^ (if es = [] then "_" else String.concat ";" (List.map fmt_entry es)))
+       | BErr UnexpectedEof -> Some "H=Err:UnexpectedEof"
+       | BErr InvalidData -> Some "H=Err:InvalidData"
+       | BErr OutOfFuel -> Some "H=OutOfModel")
+  | "unm" ->
+      let f = parse_mfile a.(6) (parse_recs a.(3)) in
+      (match index_m (n_of_dec a.(4)) f with
+       | Ok es ->
+           (match query_unmapped es f with
+            | Ok l -> Some ("U=" ^ fmt_names l)
+            | e -> Some ("U=" ^ fmt_res e))
+       | e -> Some ("U=" ^ fmt_res e))
   | _ -> None
 
 let () = run_driver handle
